@@ -985,7 +985,15 @@ class Rewriter:
         assert all(isinstance(x, (ArrayNode, FunctionNode)) for x in self.modified_nodes)
         assert all(isinstance(x, (ArrayNode, AssignmentNode, FunctionNode)) for x in self.to_remove_nodes)
         # Sort based on line and column in reversed order
-        work_nodes = [{'node': x, 'action': 'modify'} for x in self.modified_nodes]
+        # A modified node inside another modified node is re-printed together
+        # with the outer one. Replacing its extent as well would shift the text
+        # the (already computed) extent of the outer node refers to.
+        def is_inside(inner: BaseNode, outer: BaseNode) -> bool:
+            return (inner is not outer and inner.filename == outer.filename and
+                    (outer.lineno, outer.colno) <= (inner.lineno, inner.colno) and
+                    (inner.end_lineno, inner.end_colno) <= (outer.end_lineno, outer.end_colno))
+        outermost = [x for x in self.modified_nodes if not any(is_inside(x, y) for y in self.modified_nodes)]
+        work_nodes = [{'node': x, 'action': 'modify'} for x in outermost]
         work_nodes += [{'node': x, 'action': 'rm'} for x in self.to_remove_nodes]
         work_nodes = sorted(work_nodes, key=lambda x: (T.cast(BaseNode, x['node']).lineno, T.cast(BaseNode, x['node']).colno), reverse=True)
         work_nodes += [{'node': x, 'action': 'add'} for x in self.to_add_nodes]
